@@ -102,8 +102,15 @@ def bitflip(case, ctx):
              "bitflip/%s/%s#%d" % (proto, d, idx), stalled)
 
 
-FAULTS = ["drop", "dup", "swap", "trunc-adjust", "trunc-raw", "inject-earlier", "reflect", "extend"]
-rec_case = st.fixed_dictionaries(dict(cfg, rec=st.integers(0, 63), fault=st.sampled_from(FAULTS), k=st.integers(1, 40), other=st.integers(0, 63)))
+FAULTS = ["drop", "dup", "swap", "trunc-adjust", "trunc-raw", "inject-earlier", "reflect", "extend", "inject-crafted", "inject-crafted"]
+# crafted records put in front of a handshake record: content types handshake / application_data / heartbeat / unknown (change_cipher_spec and
+# alert are left out: TLS 1.3 tells receivers to drop a stray CCS and warning alerts may be ignored, so ignoring them is not a violation),
+# empty or short payloads, the connection's own version bytes or another known version
+CRAFT_TYPES = [22, 23, 23, 24, 0, 255]
+CRAFT_VERS = ["", "", "0303", "0301", "0101", "0304"]
+rec_case = st.fixed_dictionaries(dict(cfg, rec=st.integers(0, 63), fault=st.sampled_from(FAULTS), k=st.integers(1, 40), other=st.integers(0, 63),
+                                      ctype=st.sampled_from(CRAFT_TYPES), cver=st.sampled_from(CRAFT_VERS), clen=st.sampled_from([0, 0, 0, 1, 2, 4, 16]),
+                                      cfill=st.sampled_from([0, 1, 0xFF])))
 
 
 @P.sub("recfault", rec_case, quick=900, thorough=40000)
@@ -152,6 +159,11 @@ def recfault(case, ctx):
                     return [rec.raw]
                 hit.append(1)
                 return [same[case["other"] % len(same)][2], rec.raw]
+            if fault == "inject-crafted":
+                hit.append(1)
+                ver = bytes.fromhex(case.get("cver") or "") or rec.raw[1:3]
+                pl = bytes([case.get("cfill", 0)]) * case.get("clen", 0)
+                return [bytes([case.get("ctype", 23)]) + ver + len(pl).to_bytes(2, "big") + pl, rec.raw]
             if fault == "reflect":
                 # send the record back to its sender as well
                 hit.append(1)
@@ -174,7 +186,8 @@ def recfault(case, ctx):
         return (r1, r2)
     hc, hs, log, stalled, extra = _run(ctx, proto, mutual, seed, hook, after=after)
     ctx.case(nontrivial=bool(hit), classes=[proto, "mutual" if mutual else "server-auth", fault, "type%d" % raw[0]] + (["post-handshake-stray"] if post_dup else []),
-             ident=[proto, mutual, seed, d, idx, fault, k if fault.startswith("trunc") or fault == "extend" else 0, case["other"] if fault == "inject-earlier" else 0],
+             ident=[proto, mutual, seed, d, idx, fault, k if fault.startswith("trunc") or fault == "extend" else 0, case["other"] if fault == "inject-earlier" else 0] +
+                   ([case.get("ctype"), case.get("cver"), case.get("clen"), case.get("cfill")] if fault == "inject-crafted" else []),
              sample=dict(case, dir=d, idx=idx))
     if not hit:
         return
